@@ -1,5 +1,7 @@
 """TC (traversal completeness), RP (rebuild preserves), and helpers on `match`es over the tree
 enums (parse::Expr, regex::RegexNode).  Engine S only."""
+import re
+
 from . import ast as A
 
 CHILD_TYPES = {
@@ -215,6 +217,39 @@ def tc_check(repo, res, fn_q, enum, accepted, allow, extra_ok_adaptors=(), rule=
     envs = A.collect_envs(fn)
     accepted = helper_closure(repo, fn, set(accepted) | {fn.name})
     variants = enum_variants(repo, enum)
+    # a pass visits the node it is given: nothing leaves the function before the dispatch on the node (a "nothing to do" fast path
+    # in front of the match skips, with the rewriting, every side effect the arms have -- bookkeeping, error detection -- for the whole sub-tree)
+    first = min(matches, key=lambda m: (m["l"], m["c"]))
+    early = [r for r in A.walk(fn.body) if r["k"] == "Return" and A.before(r, first)]
+    # an early return decided by looking AT THE NODE is an arm written in front of the match (judged by the rules for that variant);
+    # one decided by anything else skips the node whatever it is
+    pm_ = A.parent_map(fn.body)
+
+    def _reads_node(ret):
+        node_params = {prm["name"] for prm in fn.params if prm.get("name") and re.search(r"\b(ExprId|RegexNodeId|RegexNode|Expr)\b", prm.get("ty") or "")} | ({"self"} if fn.params and fn.params[0].get("name") == "self" else set())
+        for g, role in A.guards_of(ret, pm_):
+            if g["k"] != "If":
+                continue
+            work, seen = [(g["cond"], envs.get(id(g["cond"])) or envs.get(id(g)))], set()
+            while work:
+                x, en = work.pop()
+                if x is None or id(x) in seen:
+                    continue
+                seen.add(id(x))
+                for n in A.walk(x):
+                    if n["k"] == "Path" and "::" not in n["path"]:
+                        if n["path"] in node_params:
+                            return True
+                        df = en.get(n["path"]) if en else None
+                        if df is not None and df.init is not None:
+                            work.append((df.init, df.env))
+        return False
+
+    early = [r for r in early if not _reads_node(r)]
+    if early:
+        res.bad(rule, f"{rule}:{fn_q}:no-exit-before-dispatch", f"`return` at line {early[0]['l']} stands before the match over {enum}: the sub-tree is not visited on that path", f"{fn.file}:{early[0]['l']}")
+    else:
+        res.ok(rule, f"{rule}:{fn_q}:no-exit-before-dispatch", f"no exit before the match over {enum}", fn.loc())
     n_inst = 0
     okad = OK_ADAPTORS | set(extra_ok_adaptors)
     for m in matches:
